@@ -1,11 +1,11 @@
 ------------------------------ MODULE MCMolHeap ------------------------------
 EXTENDS MolHeap, Json
-AllCells == {"molattr", "molnest", "atomattr", "atomnest", "atomlabel", "natoms", "bondattr", "bondtype", "coord", "chg", "weight"}
-CellSeq == <<"molattr", "molnest", "atomattr", "atomnest", "atomlabel", "natoms", "bondattr", "bondtype", "coord", "chg", "weight">>
+AllCells == {"molattr", "molnest", "atomattr", "atomattr_e", "atomnest", "atomlabel", "natoms", "bondattr", "bondattr_e", "bondtype", "coord", "chg", "weight"}
+CellSeq == <<"molattr", "molnest", "atomattr", "atomattr_e", "atomnest", "atomlabel", "natoms", "bondattr", "bondattr_e", "bondtype", "coord", "chg", "weight">>
 CIdx == [c \in AllCells |-> CHOOSE i \in 1..Len(CellSeq) : CellSeq[i] = c]
 KAll == {"Promolecule", "Connectivity", "CartesianGeometry", "Structure", "Molecule", "ConformerEnsemble", "Conformer"}
-PM == {"molattr", "molnest", "atomattr", "atomnest", "atomlabel", "natoms"}
-BD == {"bondattr", "bondtype"}
+PM == {"molattr", "molnest", "atomattr", "atomattr_e", "atomnest", "atomlabel", "natoms"}   \* atomattr_e: attribute dict of an atom that is EMPTY at copy time
+BD == {"bondattr", "bondattr_e", "bondtype"}
 CellsM == [k \in KAll |-> CASE k = "Promolecule" -> PM
                             [] k = "Connectivity" -> PM \cup BD
                             [] k = "CartesianGeometry" -> PM \cup {"coord"}
